@@ -45,11 +45,11 @@ theorem legacy_F10 : ∃ (cfg : ChunkCfg) (c : Chunk) (k p : Bytes),
 
 /-! ### tie by translation: the source's own leaf logic (regenerated into SV/Generated/Funcs.lean on every run) IS the model's -/
 theorem source_capacity_test_is_the_models (cfg : ChunkCfg) (c : Chunk) :
-    c.exceeded cfg = Gen.chunkExceeded c.items.length cfg.maxNumItems c.numBytes cfg.maxNumBytes := GenProofs.chunkExceeded_eq cfg c
+    c.exceeded cfg = Gen.chunkExceeded (len_chunk_items := c.items.length) (chunk_config_maxNumItems := cfg.maxNumItems) (chunk_numBytes := c.numBytes) (chunk_config_maxNumBytes := cfg.maxNumBytes) := GenProofs.chunkExceeded_eq cfg c
 theorem source_chunk_config_is_the_models (c : Config) :
-    ((c.chunkCfg.maxNumItems : Nat) : Int) = Gen.chunkMaxNumItems c.numChunks c.maxNumItems ∧
-    ((c.chunkCfg.maxNumBytes : Nat) : Int) = Gen.chunkMaxNumBytes c.numChunks c.maxNumBytes ∧
-    ((c.chunkCfg.numToEvict : Nat) : Int) = Gen.chunkNumItemsToEvict c.numChunks c.numItemsToEvict := GenProofs.chunkCfg_eq c
+    ((c.chunkCfg.maxNumItems : Nat) : Int) = Gen.chunkMaxNumItems (config_NumChunks := c.numChunks) (config_MaxNumItems := c.maxNumItems) ∧
+    ((c.chunkCfg.maxNumBytes : Nat) : Int) = Gen.chunkMaxNumBytes (config_NumChunks := c.numChunks) (config_MaxNumBytes := c.maxNumBytes) ∧
+    ((c.chunkCfg.numToEvict : Nat) : Int) = Gen.chunkNumItemsToEvict (config_NumChunks := c.numChunks) (config_NumItemsToPreemptivelyEvict := c.numItemsToEvict) := GenProofs.chunkCfg_eq c
 
 /-! ### the whole cache (any number of chunks ≥ 1, routing by fnv32) — SV.Immunity.CacheProofs -/
 
